@@ -158,8 +158,11 @@ Inductive case :=
 | CB (ps : Z) (early : list (Z * Z)) (before : list (Z * Z)) (after : list (Z * Z)) (fin : bool)
   (* whole repository, WithBlobUploader with concurrent SaveBlob: acc = saved blobs (stored length unknown: 0),
      packs = listing of every uploaded pack file (k = position in upload order), idx = entries of the
-     repository index after the session, bops = order of successful pack / index uploads, ok = session result *)
-| CR (ps : Z) (acc : list pblob) (packs : list (list ientry)) (idx : list ientry) (bops : list bop) (ok : bool).
+     repository index after the session, bops = order of successful pack / index uploads, ok = session result,
+     mem = pack numbers (9999 = never uploaded) the in-memory index of the repository object refers to after
+     the session (failed or not) *)
+| CR (ps : Z) (acc : list pblob) (packs : list (list ientry)) (idx : list ientry) (bops : list bop) (ok : bool)
+     (mem : list nat).
 
 Definition packer_eqb (a b : packer) : bool := list_eqb pblob_eqb a b.
 
@@ -199,7 +202,7 @@ Definition same_ids (acc : list pblob) (l : list ientry) : bool :=
 
 (* oracle; 0 = holds; 2 blob lost/duplicated/altered; 3 tree and data mixed; 4 blob added to a full pack;
    5 header limit exceeded / Finalize fails; 6 index entry does not match the uploaded pack / pack not
-   uploaded before being indexed *)
+   uploaded before being indexed; 7 the in-memory index refers to a pack whose upload did not succeed *)
 Definition oracle_code (c : case) : nat :=
   match c with
   | CP ps n tree ops oslots oqueued fin =>
@@ -219,7 +222,8 @@ Definition oracle_code (c : case) : nat :=
                && (fold_right Z.add 0 (map fst before) =? fold_right Z.add 0 (map fst after))) then 2%nat
       else if negb (forallb (fun a => snd a <=? max_header_entries) (early ++ after) && fin) then 5%nat
       else 0%nat
-  | CR ps acc packs idx bops ok =>
+  | CR ps acc packs idx bops ok mem =>
+      if negb (forallb (fun k => mem_nat k (uploaded bops)) mem) then 7%nat else
       if ok then
         if negb (same_ids acc (concat packs) && same_ids acc idx) then 2%nat
         else if negb (forallb (fun p => match p with [] => true | e :: _ => forallb (fun x => Bool.eqb (ie_tree x) (ie_tree e)) p end) packs) then 3%nat
